@@ -12,6 +12,10 @@ def stable(oid):
 def main(tier='quick'):
     man = json.load(open(os.path.join(HERE, 'MANIFEST.json')))
     base = {}
+    try:
+        prev = json.load(open(os.path.join(HERE, 'baseline_obligations.json')))
+    except Exception:
+        prev = {}
     for c in man['checks']:
         p = c['property_id']
         env = dict(os.environ, PVC_BASELINE='1', VERIF_SEED='0', PVC_DUMP_PROVED=os.path.join(HERE, '.proved_%s.json' % p))
@@ -19,7 +23,9 @@ def main(tier='quick'):
         f = env['PVC_DUMP_PROVED']
         if os.path.exists(f):
             ids = json.load(open(f)); os.unlink(f)
-            base[p] = {i: {'tier': tier} for i in ids if stable(i)}
+            # enforced later: obligations discharged quickly here (margin against a loaded machine), plus those already enforced
+            # before that still discharge (so a slow moment while regenerating does not silently drop an obligation)
+            base[p] = {i: {'tier': tier} for i, secs in ids.items() if stable(i) and (secs < 15.0 or i in prev.get(p, {}))}
         print(p, 'exit', r.returncode, len(base.get(p, {})), 'stable obligations')
     json.dump(base, open(os.path.join(HERE, 'baseline_obligations.json'), 'w'), indent=0, sort_keys=True)
     return 0
